@@ -64,9 +64,18 @@ LawRshBig ==
     LET big == 4 + c + 2 IN   \* any amount with 2^amount > B
     (y.lo >= 0) => Hull(HullPairs("rsh", M(x), Tr(y, big))) = Hull({ RshBigApply(a) : a \in M(x) } \cap (IF M(y) = {} THEN {} ELSE {-1, 0}))
 
+\* the decomposition of Interval!SparseExpected against brute force over ALL integers of the scaled intervals
+LawSparse ==
+    (~IsEmpty(x) /\ ~IsEmpty(y)) =>
+        \A o \in {"andsc", "orsc"} :
+            LET e == SparseExpected(o, x, y)
+                T == { BitOp(o, a, b) : a \in Sc(x, k), b \in Sc(y, k) }
+            IN /\ SetMin(T) = e.L * Pow2(k)
+               /\ SetMax(T) = e.H * Pow2(k) + e.F * (Pow2(k) - 1)
+
 LInit == /\ x \in Fin /\ y \in Fin /\ op = "laws"
          /\ k \in KS /\ j \in JS /\ c \in { v - 4 : v \in CS } /\ d \in { v - 4 : v \in DS }   \* cfg files cannot hold negative numbers
 LNext == UNCHANGED <<x, y, op, k, j, c, d>>
 LSpec == LInit /\ [][LNext]_<<x, y, op, k, j, c, d>>
-Laws == LawTranslate /\ LawScale /\ LawBox /\ LawRshBig
+Laws == LawTranslate /\ LawScale /\ LawBox /\ LawRshBig /\ LawSparse
 =============================================================================
